@@ -63,6 +63,6 @@ __CPROVER_ensures(/* one new entry, filed in a bucket of the current table */ g_
                        'xv_splice_to_entries', 'xv_bucket_push', 'xv_last_entry'], reach='all', timeout=120, min_obligations=5)],
     mutants=[Mutant('index_before_rehash', XM, r'(        // if the load factor has been reached, rehash\n        if \(size_type\(m_loadFactor \* size\(\)\) > m_buckets\.size\(\)\)\s*\{\s*rehash\(\);\s*\}\s*)(const size_type     index = doHash\(key\);\s*)', r'\2\1', expect='computed for the table size'),
              Mutant('size_not_counted', XM, r'(m_buckets\[index\]\.push_back\(--m_entries\.end\(\)\);\s*)\+\+m_size;', r'\1', expect='one new entry')],
-    mechanisms=['XalanMap bucket filing and rehash'],
+    mechanisms=['XalanMap bucket filing and rehash', 'insert / find / erase / rehash / compaction'],
     assumptions=['doHash(key) is m_hash(key) % m_buckets.size() (read); rehash() and the initial bucket creation change the number of buckets; the entry lists are modelled by protocol flags only'],
 )
